@@ -37,11 +37,11 @@ def shards(tier, seed):
     nr = 8 if tier == "quick" else 32
     for i in range(nr):
         out.append({"name": f"random{i}", "kind": "random", "part": i,
-                    "n": 5000 if tier == "quick" else 60000})
+                    "n": 20000 if tier == "quick" else 60000})
     nn = 4 if tier == "quick" else 16
     for i in range(nn):
         out.append({"name": f"nested{i}", "kind": "nested", "part": i,
-                    "n": 700 if tier == "quick" else 12000})
+                    "n": 3000 if tier == "quick" else 12000})
     no = 4 if tier == "quick" else 16
     for i in range(no):
         out.append({"name": f"octlen{i}", "kind": "octlen", "part": i, "parts": no,
